@@ -224,6 +224,51 @@ def main():
                     ctx.violation(mm_, "%s: %s" % (cid, msg), cid)
     ctx.lap("meshes")
 
+    # ------------------------------------------------------------------ multi-domain grid with junction edges (3 elements per edge):
+    # spaces on segments (one closed body of a multitrace configuration), element renumbering that moves the interface
+    # elements from the front to the back of the numbering
+    mt = M.multitrace_cubes()
+    mt = M.distort(mt, ctx.rng("mt"), jitter=0.04, strength=0.15, min_angle=20.0)
+    iface = np.flatnonzero(mt.D == 2)
+    rest = np.flatnonzero(mt.D != 2)
+    variants = [("interface_first", np.concatenate([iface, rest])), ("interface_last", np.concatenate([rest, iface]))]
+    mt_a = M.permute_elements(mt, variants[0][1])
+    mt_b = M.permute_elements(mt, variants[1][1])
+    ga, gb = M.to_grid(mt_a), M.to_grid(mt_b)
+    Xmt = sample_points(mt_a)
+    wa, wb = locate(mt_a, Xmt), locate(mt_b, Xmt)
+    for segs in ([0, 2], [1, 2]):
+        for fam, op, tk, sk, k in [("maxwell", "electric_field", "RWG", "SNC", 0.9), ("laplace", "single_layer", "P1", "DP0", None)] + \
+                ([] if ctx.quick else [("maxwell", "magnetic_field", "RWG", "SNC", 1.1 + 0.2j), ("helmholtz", "double_layer", "P1", "P1", 1.2)]):
+            cid = "multitrace:segments%s:%s.%s" % (segs, fam, op)
+            if not ctx.want(cid):
+                continue
+            with ctx.guard(cid, "equivariance:renumber_junction"):
+                mk = lambda g, kind: api.function_space(g, *KA[kind], segments=segs)  # noqa: E731
+                tr_a, te_a, tr_b, te_b = mk(ga, tk), mk(ga, sk), mk(gb, tk), mk(gb, sk)
+                Pt, dt, okt = signed_permutation(basis_matrix(tr_a, wa), basis_matrix(tr_b, wb))
+                Ps, ds, oks = signed_permutation(basis_matrix(te_a, wa), basis_matrix(te_b, wb))
+                if not (okt and oks) or max(dt, ds) > 1e-9:
+                    ctx.violation("equivariance:renumber_junction:spaces_not_related_by_signed_permutation",
+                                  "%s: trial defect %.2e (ok=%s), test defect %.2e (ok=%s): the space on segments %s depends on the element numbering"
+                                  % (cid, dt, okt, ds, oks, segs), cid)
+                    continue
+                A = assemble(fam, op, tr_a, te_a, k, 4, 4, part="regular")
+                B = assemble(fam, op, tr_b, te_b, k, 4, 4, part="regular")
+                dev = compare(cid, "equivariance:renumber_junction:regular_part:%s.%s" % (fam, op), A, B, Pt, Ps, 1.0, 1e-10)
+                devs = []
+                for so in SING_ORDERS:
+                    A = assemble(fam, op, tr_a, te_a, k, 4, so)
+                    B = assemble(fam, op, tr_b, te_b, k, 4, so)
+                    devs.append(O.rel(A, Ps.T @ B @ Pt))
+                ctx.case(cid, {"mesh": "multitrace", "segments": segs, "op": fam + "." + op, "regular_part_rel_dev": dev, "full_by_singular_order": devs})
+                top = devs[-1]
+                if not np.isfinite(top) or top > 1e-5 or (top > devs[0] / 30 and top > 1e-10):
+                    ctx.violation("equivariance:renumber_junction:singular_part_no_convergence:%s.%s" % (fam, op), "%s: %s" % (cid, ["%.2e" % d for d in devs]), cid)
+            for mm_, msg in rec.drain():
+                ctx.violation(mm_, "%s: %s" % (cid, msg), cid)
+    ctx.lap("multitrace")
+
     # ------------------------------------------------------------------ class-complete two-element family
     rngc = ctx.rng("classes")
     A0, B0 = np.zeros(3), np.array([1.0, 0.05, -0.02])
